@@ -74,3 +74,114 @@ def bookkeeping_violations(driver, c0, c1, c2, maxit=8):
             if bool(nc[b]) != bool(cs[b] > calls[0]):
                 bad.append("molecule %d: reported notconverged=%s although its convergence iteration is %d and %d tests were made" % (b, bool(nc[b]), cs[b], calls[0]))
     return bad
+
+
+# ---- unrolled derivative of the SCF drivers (C07.g) ---------------------------------------------------------------------------
+# scf_backward = 2 differentiates the SCF loop itself.  The loop is run on dual numbers whose tangents follow torch's tape
+# (engine grad model: detach() and everything computed or stored under torch.no_grad() carries no tangent): values are concrete,
+# the tangent direction dH of the Hamiltonian is symbolic.  With a linear contraction standing in for Fock build and density
+# step the converged density and its derivative are known in closed form: P* = (c1 H + c0)/(1 - c1 g), dP* = c1 dH/(1 - c1 g).
+# Mixing heuristics that are deliberately kept off the tape (FAC, DIIS coefficients) do not change that limit; a tensor on the
+# value path that is detached or written under no_grad does.
+
+
+def unrolled_derivative(driver, iters=18):
+    """returns (tangent of the returned density, exact derivative of the fixed point, symbols) as object arrays of z3 terms"""
+    import numpy as np
+    import z3
+    from fractions import Fraction
+    from engine import symtorch as S
+    from engine.symtorch import SymTensor, Dual, symbolic_factories
+    from seqm.seqm_functions import scf_loop as SL
+
+    n, gam, c1 = 4, Fraction(1, 5), Fraction(1, 2)
+    H0 = np.array([[z3.Real("dH_%d_%d" % (min(i, j), max(i, j))) for j in range(n)] for i in range(n)], dtype=object)
+    Hv = [[Fraction(3 + (i == j) * 2 + ((i + 2 * j) % 3), 10) for j in range(n)] for i in range(n)]
+    Hv = [[Hv[min(i, j)][max(i, j)] for j in range(n)] for i in range(n)]
+    # density step P = a*1 + c1*F commutes with the Fock matrix it is built from (like a real density), so the DIIS error
+    # [F(P), P] measures the distance from self-consistency and vanishes at the fixed point; the start density does not
+    # commute with H
+    c0 = [[Fraction(6, 10) if i == j else Fraction(0) for j in range(n)] for i in range(n)]
+    S.reset()
+    S.ST.dual_n = 1
+    S.ST.grad_model = True
+    saved = {k: getattr(SL, k) for k in ("fock_restricted", "make_Pnew_factory", "get_error", "reshape_Hcore", "compute_fac", "elec_energy", "MAX_ITER")}
+    saved_eigh = torch.linalg.eigh
+    calls = [0]
+    try:
+        Hc = SymTensor(np.array([[[Dual(S.rv(Hv[i][j]), (H0[i, j],)) for j in range(n)] for i in range(n)]], dtype=object))
+        C0 = SymTensor(np.array([[[S.rv(c0[i][j]) for j in range(n)] for i in range(n)]], dtype=object))
+        P0 = SymTensor(np.array([[[S.rv(Fraction(1, 2) + Fraction(i, 10) if i == j else Fraction(1 + ((i * j + i + j) % 4), 20)) for j in range(n)] for i in range(n)]], dtype=object))
+
+        def fock(nmol_, molsize_, P, M, *a):
+            return Hc + P * S.rv(gam)
+
+        def factory(*a, **k):
+            return lambda F, *b: F * S.rv(c1) + C0[: F.shape[0]]
+
+        def get_error(Pold, P, notconverged, *a, **k):
+            calls[0] += 1
+            return torch.tensor([calls[0] < iters]), 0.0, 0.0
+
+        def _num(e):
+            z = z3.simplify(S.val(e))
+            if z3.is_rational_value(z):
+                return float(z.as_fraction())
+            raise ValueError("SCF iterate is not a concrete number: %s" % str(z)[:80])
+
+        def to_np(t):
+            return np.vectorize(_num, otypes=[float])(t.a) if isinstance(t, SymTensor) else np.asarray(t, dtype=float)
+
+        def fac(a, b, c):
+            # the extrapolation factor is a heuristic computed under no_grad (off the tape by design): evaluated in floats
+            # with the code's own formula
+            a, b, c = to_np(a), to_np(b), to_np(c)
+            num = ((a - b) ** 2).sum(axis=1)
+            den = ((a - 2.0 * b + c) ** 2).sum(axis=1)
+            out = np.zeros_like(num)
+            ok = (den > 0) & (num < 100.0 * den)
+            out[ok] = np.sqrt(num[ok] / den[ok])
+            return SymTensor(np.array([S.rv(Fraction(float(x)).limit_denominator(10**9)) for x in out], dtype=object))
+
+        SL.compute_fac = fac
+
+        def eigh(A, *a, **k):
+            # DIIS coefficients come from an eigen-decomposition under no_grad (off the tape by design): done in floats
+            L, Q = np.linalg.eigh(to_np(A))
+            L = np.where(np.abs(L) < 1e-200, 1e-200, L)  # an exact zero would make the condition number x/0 (inf in floats, i.e. "reset DIIS"); keep it finite and huge
+            conv = np.vectorize(lambda x: S.rv(Fraction(float(x)).limit_denominator(10**12)), otypes=[object])
+            convL = np.vectorize(lambda x: S.rv(float(x)), otypes=[object])  # exact float: tiny values must not collapse to 0
+            return SymTensor(convL(L)), SymTensor(conv(Q))
+
+        torch.linalg.eigh = eigh
+        SL.fock_restricted = fock
+        SL.make_Pnew_factory = factory
+        SL.get_error = get_error
+        SL.reshape_Hcore = lambda M, nmol_, molsize_, method: Hc
+        SL.elec_energy = lambda P, F, H: SymTensor(np.array([S.rv(0)] * P.shape[0], dtype=object))
+        SL.MAX_ITER = iters + 5
+        args = (Hc, None, None, None, None, None, None, None, torch.tensor([0]), torch.tensor([1]), torch.tensor([0]), torch.tensor([2]), 1, 1, None, None, None, None, P0, torch.tensor(1e-6, dtype=torch.float64), "AM1", None, None, None, None, None, None)
+        with torch.enable_grad(), symbolic_factories(), contextlib.redirect_stdout(io.StringIO()):
+            if driver == 0:
+                P, nc = SL.scf_forward0(*args, sp2=[False], scf_converger=[0, 0.3], unrestricted=False, backward=True, verbose=False)
+            elif driver == 1:
+                P, nc = SL.scf_forward1(*args, sp2=[False], scf_converger=[1, 0.0, 0.0, 1], unrestricted=False, backward=True, verbose=False)
+            else:
+                P, nc = SL.scf_forward2(*args, sp2=[False], backward=True, verbose=False)
+    finally:
+        for k, v in saved.items():
+            setattr(SL, k, v)
+        torch.linalg.eigh = saved_eigh
+        S.ST.dual_n = 0
+        S.ST.grad_model = False
+    tan = np.empty((n, n), dtype=object)
+    val = np.empty((n, n), dtype=object)
+    exact = np.empty((n, n), dtype=object)
+    for i in range(n):
+        for j in range(n):
+            e = P.a[0, i, j]
+            tan[i, j] = e.t[0] if isinstance(e, Dual) else z3.RealVal(0)
+            val[i, j] = S.val(e)
+            exact[i, j] = S.rv(c1 / (1 - c1 * gam)) * H0[i, j]
+    fixed = [[(c1 * Hv[i][j] + c0[i][j]) / (1 - c1 * gam) for j in range(n)] for i in range(n)]
+    return tan, exact, val, fixed, H0
